@@ -98,7 +98,10 @@ class SafeAtoms(dict):
         dict.__init__(self)
         for key, value in atoms.items():
             if isinstance(value, str):
-                self[key] = value.replace('"', '\\"')
+                # keep every record on one line: atoms built from decoded
+                # data (path, basic-auth user, environ) may contain CR/LF
+                self[key] = value.replace('"', '\\"').replace(
+                    '\r', '\\r').replace('\n', '\\n')
             else:
                 self[key] = value
 
